@@ -213,6 +213,30 @@ theorem mem_originsAt {items : List WalkItem} {k : LineLoc} {o : Origin} (h : o 
   · simp [hk] at hf; exact ⟨hk, hf⟩
   · simp [hk] at hf
 
+/-- The class predicate of known finding `C12-srcmap-foreign-key` (negation of `hkeys`), as evaluated by the driver. -/
+def hasForeignKey (G : String) (items : List WalkItem) : Bool :=
+  items.any fun it => match it.key, it.origin with
+    | some k, some _ => decide (k.file ≠ G)
+    | _, _ => false
+
+theorem hasForeignKey_false_iff (G : String) (items : List WalkItem) :
+    hasForeignKey G items = false ↔ ∀ it ∈ items, ∀ k, it.key = some k → it.origin ≠ none → k.file = G := by
+  unfold hasForeignKey
+  rw [List.any_eq_false]
+  constructor
+  · intro h it hit k hk ho
+    have := h it hit
+    cases hor : it.origin with
+    | none => exact absurd hor ho
+    | some o => simp [hk, hor] at this; exact this
+  · intro h it hit
+    cases hk : it.key with
+    | none => simp
+    | some k =>
+      cases hor : it.origin with
+      | none => simp
+      | some o => simp; exact h it hit k hk (by simp [hor])
+
 mutual
 theorem copyOriginNode_all (o : Origin) : ∀ (n : ONode) (x : Option Origin), x ∈ allOrigins (copyOriginNode o n) → x = some o
   | .mk _ cs, x, hx => by
